@@ -335,6 +335,73 @@ func (c *C18) changeOracle(in *hub.Instance, g *c18Ghost, pre c18Stored, boundar
 type c18GridCase struct {
 	Powers []int64
 	Low    []bool // validator i reports the low value (100) instead of the high one (300)
+	// holder-list cases: Holders[i] = 0 validator i reports nothing, 1 list L0, 2 list L2 (another list), 3 list L1 (L0 in another order)
+	Holders []int
+}
+
+// c18HolderGridCases: holder lists reported by a stake share at, just below and just above two thirds, with and without
+// validators so small that their share of the 16-bit normalised power rounds to nothing.
+func c18HolderGridCases() []c18GridCase {
+	var out []c18GridCase
+	// whale + dust report L0 (share <= 2/3 in the first three, > 2/3 in the others), the rival reports L2 or nothing
+	for _, riv := range []int{0, 2} {
+		out = append(out,
+			c18GridCase{Powers: []int64{1_999_990, 1_000_008, 1, 1}, Holders: []int{1, riv, 1, 1}},            // 1999992 of 3000000
+			c18GridCase{Powers: []int64{1_999_990, 1_000_005, 1, 1, 1, 1, 1}, Holders: []int{1, riv, 1, 1, 1, 1, 1}}, // 1999995 of 3000000
+			c18GridCase{Powers: []int64{1_999_998, 1_000_000, 1, 1}, Holders: []int{1, riv, 1, 1}},            // exactly two thirds
+			c18GridCase{Powers: []int64{2_000_010, 999_988, 1, 1}, Holders: []int{1, riv, 1, 1}},              // above two thirds
+			c18GridCase{Powers: []int64{20, 10, 0}, Holders: []int{1, riv, 0}},                                 // exactly two thirds, small stakes
+			c18GridCase{Powers: []int64{21, 10, 0}, Holders: []int{1, riv, 0}},
+			c18GridCase{Powers: []int64{10, 10, 10}, Holders: []int{1, 1, riv}},
+			c18GridCase{Powers: []int64{10, 10, 9}, Holders: []int{1, 1, riv}},
+			c18GridCase{Powers: []int64{10, 10, 10}, Holders: []int{1, 3, riv}}, // two thirds on one list in two orders
+			c18GridCase{Powers: []int64{10, 10, 9}, Holders: []int{1, 3, riv}})
+	}
+	return out
+}
+
+func c18RunHolderGrid(in *hub.Instance, cs c18GridCase) (string, *engine.Violation) {
+	c := NewC18(cs.Powers)
+	in.InitGenesis(c.Genesis())
+	epoch := in.Oracle.GetCurrentEpoch(in.Ctx())
+	before := holdersCanon(in.Oracle.GetHolders(in.Ctx()))
+	var W int64
+	same := map[string]int64{}
+	list := func(code int) *oracletypes.Holders { return c18Holders([]int64{0, 2, 1}[code-1]) }
+	for i, v := range c.Vals {
+		W += cs.Powers[i]
+		if cs.Holders[i] == 0 || cs.Powers[i] == 0 {
+			continue
+		}
+		same[holdersCanon(list(cs.Holders[i]))] += cs.Powers[i]
+		if r := in.DeliverMsg(&oracletypes.MsgHoldersClaim{Epoch: epoch, Holders: list(cs.Holders[i]), Orchestrator: v.Acc.String()}); !r.OK() {
+			return "claim-rejected", nil
+		}
+	}
+	for {
+		b := in.Height%5 == 0
+		if p := in.NextBlock(5); p != nil {
+			return "block-failure", nil
+		}
+		if b {
+			break
+		}
+	}
+	after := holdersCanon(in.Oracle.GetHolders(in.Ctx()))
+	if after == before {
+		return "holders-unchanged", nil
+	}
+	for l, w := range same {
+		if l == after {
+			if 3*w <= 2*W {
+				return "bad", &engine.Violation{Property: "C18", Rule: "holders_adopted_without_two_thirds_identical", Site: "AttestationHandler.Handle",
+					Detail: fmt.Sprintf("powers %v, reports %v: the list reported by %d of %d stake (not more than two thirds) was adopted", cs.Powers, cs.Holders, w, W)}
+			}
+			return "holders-adopted", nil
+		}
+	}
+	return "bad", &engine.Violation{Property: "C18", Rule: "holders_adopted_without_two_thirds_identical", Site: "AttestationHandler.Handle",
+		Detail: fmt.Sprintf("powers %v, reports %v: the holder list changed to one nobody reported: %s", cs.Powers, cs.Holders, after)}
 }
 
 func c18GridCases(tier string) []c18GridCase {
@@ -353,12 +420,12 @@ func c18GridCases(tier string) []c18GridCase {
 				return
 			}
 		}
-		out = append(out, c18GridCase{p, low})
+		out = append(out, c18GridCase{Powers: p, Low: low})
 		inv := make([]bool, len(low))
 		for i := range low {
 			inv[i] = !low[i]
 		}
-		out = append(out, c18GridCase{p, inv})
+		out = append(out, c18GridCase{Powers: p, Low: inv})
 	}
 	for _, a := range as {
 		for _, d := range []int64{-2, -1, 1, 2} {
@@ -478,7 +545,7 @@ func init() {
 			if len(out.Violations) > 0 || out.InternalError != "" {
 				return out
 			}
-			cases := c18GridCases(o.Tier)
+			cases := append(c18GridCases(o.Tier), c18HolderGridCases()...)
 			res := make([]string, len(cases))
 			viol := make([]*engine.Violation, len(cases))
 			ch := make(chan int, len(cases))
@@ -493,7 +560,11 @@ func init() {
 					defer wg.Done()
 					in := hub.New()
 					for i := range ch {
-						res[i], viol[i] = c18RunGrid(in, cases[i])
+						if cases[i].Holders != nil {
+							res[i], viol[i] = c18RunHolderGrid(in, cases[i])
+						} else {
+							res[i], viol[i] = c18RunGrid(in, cases[i])
+						}
 					}
 				}()
 			}
@@ -508,7 +579,7 @@ func init() {
 			cov := out.Evidence["coverage"].(map[string]interface{})
 			cov["near_tie_grid_cases"] = len(cases)
 			cov["near_tie_grid_outcomes"] = outcomes
-			cov["near_tie_grid_rule"] = "power vectors (one against two, one against three, two against two) whose two sides differ by 1 or 2 units of stake, both assignments of the low/high price set; every case is one fresh real instance: claims by every validator, epoch boundary, stored prices compared with the heavier side"
+			cov["near_tie_grid_rule"] = "power vectors (one against two, one against three, two against two) whose two sides differ by 1 or 2 units of stake, both assignments of the low/high price set; every case is one fresh real instance: claims by every validator, epoch boundary, stored prices compared with the heavier side; plus holder lists reported by a stake share at, just below and just above two thirds, with and without validators whose normalised power rounds to nothing: a list is adopted only with more than two thirds of exact stake"
 			out.Summary += fmt.Sprintf(" near_tie_grid=%d %v", len(cases), outcomes)
 			return out
 		}}
